@@ -260,15 +260,21 @@ def _search(run, contract, clause, why):
     import random
     rng = random.Random(run.seed)
     n = 0
-    for inputs in gen(rng):
-        n += 1
-        try:
-            nat, nc = contract.native_eval(inputs)
-        except Exception:
-            continue
-        if nc and nc.get(clause) is False:
-            return ("confirmed", "%s -> %s violates clause '%s' (found by the bounded search over %d sample inputs; %s)"
-                    % (contract.describe(inputs), _nat(nat), clause, n, why), contract.replay_script(inputs, clause))
+    samples = list(gen(rng))
+    # two passes in ONE interpreter: in the second pass every sample is evaluated after all the others, so an answer that depends on
+    # what the library was asked before (module-level caches, memo tables) shows up as a failing clause of a later evaluation
+    for rnd, seq in enumerate((samples, list(reversed(samples)))):
+        for i, inputs in enumerate(seq):
+            n += 1
+            try:
+                nat, nc = contract.native_eval(inputs)
+            except Exception:
+                continue
+            if nc and nc.get(clause) is False:
+                script = _replay_with_history(contract, (samples if rnd else []) + seq[:i], inputs, clause)
+                return ("confirmed", "%s -> %s violates clause '%s' (found by the bounded search over %d sample inputs%s; %s)"
+                        % (contract.describe(inputs), _nat(nat), clause, n,
+                           ", after the other samples had been evaluated in the same interpreter" if rnd else "", why), script)
     return ("noinput", "%s; bounded search over %d sample inputs found no failing input" % (why, n), None)
 
 
@@ -277,16 +283,57 @@ def _search_any(run, contract):
     if gen is None:
         return None
     import random
-    for inputs in gen(random.Random(run.seed)):
-        try:
-            nat, nc = contract.native_eval(inputs)
-        except Exception:
-            continue
-        for clause, v in (nc or {}).items():
-            if v is False:
-                return (clause, "%s -> %s violates clause '%s'" % (contract.describe(inputs), _nat(nat), clause),
-                        contract.replay_script(inputs, clause))
+    samples = list(gen(random.Random(run.seed)))
+    for rnd, seq in enumerate((samples, list(reversed(samples)))):      # second pass: history dependence (see _search)
+        for i, inputs in enumerate(seq):
+            try:
+                nat, nc = contract.native_eval(inputs)
+            except Exception:
+                continue
+            for clause, v in (nc or {}).items():
+                if v is False:
+                    script = _replay_with_history(contract, (samples if rnd else []) + seq[:i], inputs, clause)
+                    return (clause, "%s -> %s violates clause '%s'%s" % (contract.describe(inputs), _nat(nat), clause,
+                            " (after the other samples had been evaluated in the same interpreter)" if rnd else ""), script)
     return None
+
+
+HISTORY_REPLAY = r'''
+import contracts
+from pyvc.source import Source
+src = Source(os.environ.get("VERIF_REPO", "/repo")); src.import_native()
+c = contracts.get(%(key)r, src)
+history = %(history)s
+inputs = %(inputs)s
+nat, clauses = c.native_eval(inputs)
+if clauses.get(%(clause)r) is False:
+    print("contract:", c.name); print("inputs:  ", c.describe(inputs)); print("clauses: ", clauses)
+    REPRODUCED("clause %%s of %%s is violated" %% (%(clause)r, c.name))
+for h in history:
+    try: c.native_eval(h)
+    except Exception: pass
+nat, clauses = c.native_eval(inputs)
+print("contract:", c.name); print("after %%d earlier calls in the same interpreter; inputs: " %% len(history), c.describe(inputs))
+print("outcome: ", nat[0], getattr(nat[1], "__name__", repr(nat[1])))
+print("clauses: ", clauses)
+if clauses.get(%(clause)r) is False: REPRODUCED("clause %%s of %%s is violated (history-dependent answer)" %% (%(clause)r, c.name))
+NOT_REPRODUCED()
+'''
+
+
+def _replay_with_history(contract, history, inputs, clause):
+    """the replay of a failing sample: alone when that reproduces in a fresh state, else preceded by the calls made before it"""
+    if not history:
+        return contract.replay_script(inputs, clause)
+    # module-level state of the library is part of this interpreter: whether the sample fails on its own is only known in a fresh
+    # process, so the script evaluates the sample alone FIRST and falls back to the recorded history
+    return history_replay_script(contract, history, inputs, clause)
+
+
+def history_replay_script(contract, history, inputs, clause):
+    if contract.key is None:
+        return None
+    return HISTORY_REPLAY % {"key": contract.key, "history": concretise.py_repr(list(history)), "inputs": concretise.py_repr(inputs), "clause": clause}
 
 
 def _confirm(run, contract, model, st, clause, out, path):
